@@ -198,6 +198,14 @@ func c06LiteralStmts() []*gen.Node {
 	return out
 }
 
+func cloneAll(p []*gen.Node) []*gen.Node {
+	out := make([]*gen.Node, len(p))
+	for i, n := range p {
+		out[i] = gen.Clone(n)
+	}
+	return out
+}
+
 // c06Interplay builds the literal/comment interplay family.
 func c06Interplay(full bool) []string {
 	A := []string{
@@ -324,6 +332,52 @@ func c06Run(c *core.Ctx) {
 		c.Inc("family_programs")
 		runProg(prog, k)
 	})
+	// (2b) brace-less bodies that end in a closing brace or parenthesis of their own (function expressions,
+	// object literals, calls with function arguments), in every compound position, followed by each core statement
+	{
+		fn := func(body ...*gen.Node) *gen.Node { return gen.F("", []string{"i"}, body...) }
+		bodies := []func() *gen.Node{
+			func() *gen.Node {
+				return gen.Ex(gen.Ca(gen.Do(gen.I("l"), "forEach"), fn(gen.Ex(gen.Ca(gen.I("g"), gen.I("i"))))))
+			},
+			func() *gen.Node { return gen.Ex(gen.As("=", gen.I("x"), fn())) },
+			func() *gen.Node { return gen.Ex(gen.As("=", gen.I("x"), gen.Ob(gen.I("k"), gen.N("1")))) },
+			func() *gen.Node { return gen.Ex(gen.Ca(gen.I("f"), gen.Ob())) },
+			func() *gen.Node { return gen.Ret(fn(gen.Ret(gen.I("i")))) },
+			func() *gen.Node { return gen.Ex(gen.Po("++", gen.I("n"))) },
+			func() *gen.Node { return gen.Ex(gen.As("+=", gen.I("x"), gen.Ar(gen.I("a")))) },
+		}
+		e := func() *gen.Node { return gen.Ex(gen.I("e")) }
+		var progs [][]*gen.Node
+		for _, b := range bodies {
+			progs = append(progs,
+				[]*gen.Node{gen.If(gen.I("c"), b(), e())},
+				[]*gen.Node{gen.If(gen.I("c"), b(), b())},
+				[]*gen.Node{gen.If(gen.I("c"), gen.Block(e()), b())},
+				[]*gen.Node{gen.If(gen.I("c"), gen.If(gen.I("d"), b(), e()), e())},
+				[]*gen.Node{gen.If(gen.I("c"), b(), gen.If(gen.I("d"), b(), nil))},
+				[]*gen.Node{gen.While(gen.I("c"), b())},
+				[]*gen.Node{gen.For(nil, nil, nil, b())},
+				[]*gen.Node{gen.Func("h", nil, gen.If(gen.I("c"), b(), b()), b())},
+			)
+		}
+		core := gen.CoreStmts()
+		pi := 0
+		for _, p := range progs {
+			for ci := -1; ci < len(core); ci++ {
+				pi++
+				if !c.Next() || c.Tick() {
+					continue
+				}
+				prog := p
+				if ci >= 0 {
+					prog = append(append([]*gen.Node{}, p...), gen.Clone(core[ci]))
+				}
+				c.Inc("braceless_body_programs")
+				runProg(cloneAll(prog), 1)
+			}
+		}
+	}
 	// (3) multi-line literals, alone, after/before another statement, and inside nested blocks / functions
 	lits := c06LiteralStmts()
 	nest := gen.Nesters(false)
